@@ -153,6 +153,12 @@ def cbmc_cmd(ob, gb, extra=()):
            "--no-standard-checks"]
     if ob.checks == "memsafe":
         cmd += MEMSAFE
+    elif ob.checks == "memsafe-nopo":  # as memsafe, without flagging the FORMATION of out-of-object pointers (address arithmetic on arbitrary displacements)
+        cmd += [f for f in MEMSAFE if f != "--pointer-overflow-check"]
+    elif ob.checks == "memsafe-noptr":  # array bounds and arithmetic checks only (harnesses that form arbitrary addresses on purpose)
+        cmd += ["--bounds-check", "--undefined-shift-check", "--div-by-zero-check"]
+    elif ob.checks == "memsafe-lite":  # in-bounds/valid-object checks only (code that legitimately wraps pointers/ints)
+        cmd += ["--bounds-check", "--pointer-check"]
     uw = dict(ob.unwindset)
     uw.update(resolve_loops(ob, gb))
     if uw:
@@ -191,7 +197,7 @@ def build_native(ob, scratch):
     if os.path.exists(exe):
         return exe, ""
     cmd = ["gcc", "-g", "-O0", "-w", "-fsanitize=address,undefined", "-fno-sanitize-recover=undefined",
-           "-fno-sanitize=shift-base,signed-integer-overflow,alignment",  # MIR relies on wrap/arith shifts; see DESIGN
+           "-fno-sanitize=shift-base,signed-integer-overflow,alignment,pointer-overflow",  # MIR relies on wrap/arith shifts; see DESIGN
            "-DREPLAY"] + (["-DH_ENTRY=" + ob.entry] if ob.entry else []) + CC_FLAGS + ["-D" + d for d in ob.defs] + ob.cc + ob.native_cc + \
           ["-o", exe + ".tmp", ob.hpath()] + ob.extra_src + ["-lm", "-ldl", "-lpthread"]
     rc, out, _ = run(cmd, 600, 16)
@@ -246,6 +252,29 @@ def run_ob(ob, scratch):
         ob.vccs = int(m.group(2))
     if rc == "timeout":
         ob.verdict, ob.detail = "inconclusive", "timeout after %ds" % ob.timeout
+    elif rc not in (0, 10) and "invariant violation report" in out and not getattr(ob, "_retried", False):
+        # CBMC 6.11 crashes in fatal_assertions.cpp when certain standard checks fail; --stop-on-fail uses another
+        # verifier: get the first failing property and its trace from there
+        import copy
+        ob2 = copy.copy(ob)
+        ob2.defs = ob.defs + ["H_NO_WITNESS"]   # witnesses always fail; without them the first failure is the real one
+        gb2, err2 = build_goto(ob2, scratch)
+        rc2, out2, dt2 = run(cbmc_cmd(ob, gb2 or gb, ["--stop-on-fail", "--trace"]), ob.timeout * 2, ob.mem_gb)
+        ob.solver_s += dt2
+        m2 = re.search(r"Violated property:\n\s+file (\S+) function (\S+) line (\d+) thread \d+\n\s+(.*)\n", out2)
+        if m2 and "unwinding assertion" in m2.group(4):
+            ob.verdict, ob.detail = "inconclusive", "unwinding bound too small: %s line %s %s" % (m2.group(2), m2.group(3), m2.group(4))
+        elif m2 and "WITNESS " not in m2.group(4):
+            d = "line %s %s" % (m2.group(3), m2.group(4))
+            ob.failed_desc = [d]
+            st, msg, path = replay(ob, scratch, out2, re.sub(r"\W+", "_", d)[:40])
+            ob.replay_path = path
+            if st == "reproduced":
+                ob.verdict, ob.detail = "violated", "FAILED: %s; native replay reproduces: %s" % (d, msg[-800:])
+            else:
+                ob.verdict, ob.detail = "inconclusive", "CBMC counterexample for '%s' did not reproduce natively (%s): %s" % (d, st, msg[-600:])
+        else:
+            ob.verdict, ob.detail = "inconclusive", "cbmc internal error (invariant violation) and no failing property found with --stop-on-fail"
     elif rc not in (0, 10):
         why = "out of memory" if ("bad_alloc" in out or "Out of memory" in out or rc in (-6, -9, 134, 137)) else "cbmc rc=%s" % rc
         ob.verdict, ob.detail = "inconclusive", why + ": " + out[-1500:]
@@ -312,10 +341,9 @@ def functions_encoded(gb):
     rc, out, _ = run(["goto-instrument", "--list-goto-functions", gb + ".r.gb"], 120, 8)
     names = []
     for line in out.splitlines():
-        line = line.strip()
-        if line and not line.startswith(("Reading", "Function", "Removing", "Dropping", "Generic", "Performing", "Adding", "Rewriting")) and " " not in line:
-            if not line.startswith("__CPROVER"):
-                names.append(line)
+        m = re.match(r"^(\S+) /\* (\S+?)(, body not available)? \*/$", line.strip())
+        if m and not m.group(3) and not m.group(1).startswith("__CPROVER"):
+            names.append(m.group(1))
     try:
         os.unlink(gb + ".r.gb")
     except OSError:
